@@ -84,7 +84,7 @@ def shards(tier):
 def floors(tier):
     f = {"cases": 8000, "validator_for_checked": 8000, "validate_checked": 8000, "explicit_cls_checked": 2000, "cli_checked": 100, "cli_explicit_validator_checked": 50,
          "warnings_checked": 1000, "histories_with_registrations": 30, "registrations": 80, "distinguished_pairs": 6,
-         "model_confirms_disagreement": 6}
+         "model_confirms_disagreement": 6, "missing_dollar_schema_in_dict_subclass": 500}
     for s in ("exact#", "exact", "unknown-uri", "non-uri", "missing", "boolean-schema"):
         f["spelling:" + s] = 200
     return f
@@ -223,6 +223,31 @@ def check_dispatch(rec, rng, registered, history, scratch, future=()):
             want_d = selected if selected is not None else (impl.CLS[3] if kind == "missing" else latest)
             if got_d is not want_d:
                 rec.violation("validator_for-default", case, "with default=Draft3Validator selects %s, expected %s" % (got_d.__name__, want_d.__name__))
+            # --- a schema without $schema held in a dict subclass that answers for absent members (defaultdict,
+            #     Counter, an auto-vivifying tree): asking it which draft it declares must neither invent a
+            #     declaration nor write one into it
+            if kind == "missing" and rng.random() < 0.5:
+                import collections
+                for label, factory in (("defaultdict(dict)", lambda: collections.defaultdict(dict)), ("defaultdict(str)", lambda: collections.defaultdict(str)),
+                                       ("defaultdict(int)", lambda: collections.defaultdict(int)), ("defaultdict(list)", lambda: collections.defaultdict(list)),
+                                       ("Counter", collections.Counter), ("OrderedDict", collections.OrderedDict)):
+                    sch = factory()
+                    sch.update(schema)
+                    keys0 = list(sch)
+                    rec.count("missing_dollar_schema_in_dict_subclass")
+                    try:
+                        with warnings.catch_warnings(record=True) as w2:
+                            warnings.simplefilter("always")
+                            g1 = validators.validator_for(sch)
+                            g2 = validators.validator_for(sch, default=impl.CLS[3])
+                    except Exception as e:
+                        rec.violation("validator_for-raised", dict(case, schema_class=label), "%s: %s" % (type(e).__name__, str(e)[:100]))
+                        break
+                    if g1 is not latest or g2 is not impl.CLS[3] or [x for x in w2 if issubclass(x.category, DeprecationWarning)] or list(sch) != keys0:
+                        rec.violation("validator_for-on-dict-subclass", dict(case, schema_class=label),
+                                      "no $schema in a %s: validator_for -> %s, with default=Draft3Validator -> %s, %d warning(s), members afterwards %r" % (
+                                          label, g1.__name__, g2.__name__, len(w2), list(sch)[:6]))
+                        break
             # --- jsonschema.validate behaves as the selected class
             with warnings.catch_warnings():
                 warnings.simplefilter("ignore")
